@@ -1,6 +1,7 @@
 package mon
 
 import (
+	ipfslog "berty.tech/go-ipfs-log"
 	"bytes"
 	"context"
 	"encoding/hex"
@@ -181,6 +182,35 @@ func CheckC20(run *evid.Run) {
 			switch x := rng.Intn(100); {
 			case x < 35 && len(ids) < nIDs:
 				id := fmt.Sprintf("id-%d-%d", i, len(ids))
+				// ids are opaque strings: some look like paths (the datastore key is derived from them)
+				sibling := ""
+				switch len(ids) % 7 {
+				case 3:
+					id = fmt.Sprintf("/orbitdb/keys/alice-%d-%d", i, len(ids))
+				case 5:
+					id = fmt.Sprintf("team//bob-%d-%d", i, len(ids))
+					sibling = fmt.Sprintf("team/bob-%d-%d", i, len(ids)) // another id, never created
+				case 6:
+					id = fmt.Sprintf("x/./y-%d-%d", i, len(ids))
+					sibling = fmt.Sprintf("x/y-%d-%d", i, len(ids))
+				}
+				if id[0] != 'i' {
+					run.Count("path_like_ids_created", 1)
+				}
+				defer func(sibling string) {
+					// (probed at the end of the sequence, on every instance and a fresh one)
+					if sibling == "" {
+						return
+					}
+					fresh := newKS()
+					if has, _ := fresh.HasKey(ctx, sibling); has {
+						// the datastore key is datastore.NewKey(id), which path-cleans its argument
+						same := ds.NewKey(id) == ds.NewKey(sibling)
+						run.Violate("C20/haskey-true-for-unknown", det("ids_differ_only_by_path_cleaning", same), map[string]any{"created": id, "never_created": sibling, "datastore_key_of_both": ds.NewKey(id).String()},
+							"HasKey(%q) = true although only %q was ever created (both ids map to the datastore key %s: %v)", sibling, id, ds.NewKey(id), same)
+					}
+					run.Count("never_created_siblings_of_path_like_ids_probed", 1)
+				}(sibling)
 				if rng.Intn(2) == 0 {
 					// ask other instances about the id BEFORE it exists (must be absent), then create it elsewhere
 					for w := range inst {
@@ -325,6 +355,37 @@ func CheckC20(run *evid.Run) {
 					}
 				}
 				checkIdentity(run, a, name, wit)
+				// a log that CHANGES its identity must not touch the identity object it was opened with (other logs and
+				// the application hold the same object)
+				if rng.Intn(3) == 0 {
+					snap := *a
+					sigs := *a.Signatures
+					snap.Signatures = &sigs
+					snap.PublicKey = append([]byte(nil), a.PublicKey...)
+					other, oerr := idp.CreateIdentity(ctx, &idp.CreateIdentityOptions{Keystore: inst[who], ID: name + "-other", Type: "orbitdb"})
+					st := store.New()
+					l1, e1 := ipfslog.NewLog(st.API(), a, &ipfslog.LogOptions{ID: "c20-setidentity"})
+					l2, e2 := ipfslog.NewLog(st.API(), a, &ipfslog.LogOptions{ID: "c20-setidentity"})
+					if oerr == nil && e1 == nil && e2 == nil {
+						_, _ = l1.Append(ctx, []byte("before"), nil)
+						l1.SetIdentity(other)
+						_, _ = l1.Append(ctx, []byte("after"), nil)
+						run.Count("identity_changes_on_a_log_sharing_its_identity_object", 1)
+						if f := identityDiff(&snap, a); f != "" {
+							run.Violate("C20/identity-unstable", det("field", f, "after", "SetIdentity on a log opened with it"), wit(), "the identity object %q changed its %s after a log opened with it switched to another identity", name, f)
+						}
+						if again, err := idp.CreateIdentity(ctx, &idp.CreateIdentityOptions{Keystore: inst[who], ID: name, Type: "orbitdb"}); err == nil {
+							if f := identityDiff(&snap, again); f != "" {
+								run.Violate("C20/identity-unstable", det("field", f, "after", "SetIdentity on a log opened with it"), wit(), "creating the identity %q again gave a different %s after a log switched identities", name, f)
+							}
+						}
+						if e, err := l2.Append(ctx, []byte("other log, same identity object"), nil); err == nil {
+							if !bytes.Equal(e.GetKey(), snap.PublicKey) {
+								run.Violate("C20/entry-key", det("after", "SetIdentity on another log sharing the identity object"), wit(), "an entry appended to a log opened with identity %q does not carry that identity's published key after ANOTHER log switched identities", name)
+							}
+						}
+					}
+				}
 				// an entry signed with it verifies under the published key bytes
 				e, err := entry.CreateEntry(ctx, store.New().API(), a, &entry.Entry{LogID: "c20", Payload: []byte(fmt.Sprintf("p-%d-%d", i, op))}, nil)
 				if err != nil {
@@ -384,9 +445,8 @@ func CheckC20(run *evid.Run) {
 			run.Sample(wit())
 		}
 	})
-	if run.Tier == "thorough" {
-		RunChildren(run, ChildOpts{Key: "C20race", Batches: 4, Race: true, RaceInScope: func(rep string) bool { return true }})
-	}
+	// concurrent use of shared keystore instances on distinct ids, under the race detector
+	RunChildren(run, ChildOpts{Key: "C20race", Batches: pick(run.Tier, 2, 8), Race: true, RaceInScope: func(rep string) bool { return true }})
 }
 
 func init() {
@@ -422,6 +482,22 @@ func init() {
 					}
 					run.Count("concurrent_ops", 1)
 				}
+				// hot loop: every goroutine keeps asking both instances for ITS OWN keys while the others ask for theirs
+				for n := 0; n < 3000; n++ {
+					id := fmt.Sprintf("c-%d-%d-%d", batch, g, n%60)
+					want, _ := ks1.GetKey(ctx, id)
+					got, err := k.GetKey(ctx, id)
+					if err != nil || want == nil || !bytes.Equal(rawKey(got), rawKey(want)) {
+						// (want itself is read concurrently; a stable reference is the key the datastore holds)
+						fresh, _ := keystore.NewKeystore(d)
+						ref, rerr := fresh.GetKey(ctx, id)
+						if rerr == nil && (err != nil || !bytes.Equal(rawKey(got), rawKey(ref))) {
+							run.Violate("C20/getkey-different", det("concurrent", true), map[string]any{"id": id}, "concurrent use: GetKey(%q) returned another key than the one stored for that id (err %v)", id, err)
+							return
+						}
+					}
+				}
+				run.Count("concurrent_hot_loop_gets", 3000)
 			}(g)
 		}
 		wg.Wait()
